@@ -47,6 +47,7 @@ def permutations_and_splits(run, tier, rng):
                     plan.append(("vec", order[k:k + take]))
                 else:
                     t, axis = std_model.layout_tensor([list(map(int, r)) for r in rows], rng, rng.choice(dtypes))
+                    t = common.relayout(t, rng.choice(common.LAYOUTS))
                     if t.ndim == 1:
                         s.accumulate(t)
                     else:
@@ -78,7 +79,7 @@ def no_stats_rule(run, tier, rng):
             for norm_var in (True, False):
                 for dt, scale, off in ((np.float64, 1, 0), (np.float32, 1, 0), (np.int16, 1, 0), (np.int16, 300, 0), (np.int8, 12, 0),
                                        (np.float64, 1, 1000), (np.float32, 1, -750), (np.int16, 1, 1000)):
-                    x = (nprng.randint(-9, 10, size=sh) * scale + off).astype(dt)
+                    x = common.relayout((nprng.randint(-9, 10, size=sh) * scale + off).astype(dt), rng.choice(common.LAYOUTS))
                     keep = x.copy()
                     x.flags.writeable = False
                     others = [sh[d] for d in range(len(sh)) if d != axis % len(sh)]
